@@ -12,6 +12,7 @@ open AcmedVerif.Props.C14
 #print axioms sections_merged
 #print axioms later_global_wins_full
 #print axioms model_options_match_source
+#print axioms every_source_option_accounted_for
 #print axioms model_merges_every_option
 #print axioms later_global_wins
 #print axioms later_global_wins_env
